@@ -1,6 +1,7 @@
 namespace PqModel.Crc
 
-/-! Spike: CRC-32 (IEEE, reflected, bit-serial) detects every burst error of width ≤ 32. -/
+/-! CRC-32 (IEEE, reflected): bit-serial register, burst detection (width ≤ 32), and the byte-wise
+    algorithm proven equal to the bit-serial one. Spec side (written from the CRC definition). -/
 
 def P : BitVec 32 := 0xEDB88320#32
 
@@ -244,6 +245,358 @@ theorem crc_burst (pre mid post e : List Bool) (he : (true :: e).length = mid.le
     rw [hac, h]
   exact run0_ne_zero e (by simp at hw; omega) (iterL_inj0 _ _ h2)
 
-#print axioms crc_burst
+/-! ## Byte level
+
+`crc32` below is the byte-wise reflected CRC-32/IEEE (xor the byte into the low 8 bits of the register,
+shift 8 times; init and final xor 0xFFFFFFFF) — the textbook algorithm `hash/crc32` tabulates
+(`simpleMakeTable`/`simpleUpdate`; the slicing-8 and CLMUL kernels Go actually runs on amd64 are tied to
+it by the L2 check `C13/crc`, not proved). `crc32_eq_crcBits` connects it to the bit-serial register the
+burst theorem is about; bits of a byte enter least-significant first. -/
+
+/-- one shift of the register: `crc = crc>>1 ^ (poly if crc&1 == 1)` -/
+def shift1 (s : BitVec 32) : BitVec 32 := (s >>> 1) ^^^ (if s.getLsbD 0 then P else 0#32)
+/-- bytewise update: xor the byte into the low 8 bits, 8 shifts -/
+def updByte (s : BitVec 32) (b : UInt8) : BitVec 32 := iter shift1 8 (s ^^^ b.toBitVec.setWidth 32)
+/-- bits of a byte, least significant first (transmission order of the reflected CRC) -/
+def byteBits (b : UInt8) : List Bool := (List.range 8).map (fun i => b.toBitVec.getLsbD i)
+def bytesToBits : List UInt8 → List Bool
+  | [] => []
+  | b :: bs => byteBits b ++ bytesToBits bs
+/-- `crc32.Update(crc, crc32.IEEETable, data)` -/
+def crc32Update (crc : BitVec 32) (data : List UInt8) : BitVec 32 := ~~~ (data.foldl updByte (~~~ crc))
+/-- `crc32.ChecksumIEEE(data)` -/
+def crc32 (data : List UInt8) : BitVec 32 := crc32Update 0#32 data
+
+theorem shift1_eq_L : shift1 = L := by
+  funext s
+  simp [shift1, L, stepBit]
+
+def byteTableOk : Bool :=
+  (List.range 256).all fun n => iter L 8 (BitVec.ofNat 32 n) == run 0#32 (byteBits (UInt8.ofNat n))
+
+theorem byteTable_ok : byteTableOk = true := by decide +kernel
+
+theorem byte_response (b : UInt8) : iter L 8 (b.toBitVec.setWidth 32) = run 0#32 (byteBits b) := by
+  have := byteTable_ok
+  unfold byteTableOk at this
+  have h := (List.all_eq_true.mp this) b.toNat (by simp; exact b.toNat_lt)
+  have h1 : UInt8.ofNat b.toNat = b := by simp
+  have h2 : BitVec.ofNat 32 b.toNat = b.toBitVec.setWidth 32 := by
+    apply BitVec.eq_of_toNat_eq
+    simp
+  rw [h1, h2] at h
+  exact eq_of_beq h
+
+theorem byteBits_length (b : UInt8) : (byteBits b).length = 8 := by simp [byteBits]
+
+theorem updByte_eq_run (s : BitVec 32) (b : UInt8) : updByte s b = run s (byteBits b) := by
+  unfold updByte
+  rw [shift1_eq_L, iterL_linear, byte_response, run_split (byteBits b) s, byteBits_length]
+
+theorem foldl_updByte_eq_run : ∀ (data : List UInt8) (s : BitVec 32),
+    data.foldl updByte s = run s (bytesToBits data)
+  | [], s => by simp [bytesToBits, run]
+  | b :: bs, s => by
+    simp only [List.foldl_cons, bytesToBits, run_append]
+    rw [foldl_updByte_eq_run bs, updByte_eq_run]
+
+theorem crc32_eq_crcBits (data : List UInt8) : crc32 data = crcBits (bytesToBits data) := by
+  unfold crc32 crc32Update crcBits
+  rw [foldl_updByte_eq_run]
+  congr
+
+/-- `writerBuffers.crc32` (writer.go:1880-1885) chains `Update` over rep, def, page: same as one pass over the concatenation -/
+theorem crc32Update_append (crc : BitVec 32) (a b : List UInt8) :
+    crc32Update (crc32Update crc a) b = crc32Update crc (a ++ b) := by
+  simp [crc32Update, List.foldl_append]
+
+def AllFalse (l : List Bool) : Prop := ∀ b ∈ l, b = false
+
+theorem run_allFalse : ∀ (l : List Bool) (s : BitVec 32), AllFalse l → run s l = iter L l.length s
+  | [], s, _ => rfl
+  | b :: l, s, h => by
+    have hb : b = false := h b (by simp)
+    subst hb
+    have h1 : run s (false :: l) = run (L s) l := rfl
+    rw [h1, run_allFalse l _ (fun x hx => h x (by simp [hx]))]
+    rfl
+
+theorem run0_allFalse (l : List Bool) (h : AllFalse l) : run 0#32 l = 0#32 := by
+  rw [run_allFalse _ _ h, iterL_zero]
+
+theorem split_first_true : ∀ (E : List Bool), (∃ k : Nat, E[k]? = some true) →
+    ∃ A e, E = A ++ true :: e ∧ AllFalse A
+  | [], h => by obtain ⟨k, hk⟩ := h; simp at hk
+  | true :: E, _ => ⟨[], E, rfl, by intro b hb; simp at hb⟩
+  | false :: E, h => by
+    obtain ⟨k, hk⟩ := h
+    cases k with
+    | zero => simp at hk
+    | succ k =>
+      obtain ⟨A, e, hE, hA⟩ := split_first_true E ⟨k, by simpa using hk⟩
+      refine ⟨false :: A, e, by simp [hE], ?_⟩
+      intro b hb
+      simp at hb
+      cases hb with
+      | inl h => exact h
+      | inr h => exact hA b h
+
+/-- zero-state response to an error pattern that is non-zero and fits a 32-bit window -/
+theorem run0_window (E : List Bool) (lo : Nat) (hne : ∃ k : Nat, E[k]? = some true)
+    (hw : ∀ k : Nat, E[k]? = some true → lo ≤ k ∧ k < lo + 32) : run 0#32 E ≠ 0#32 := by
+  obtain ⟨A, e, rfl, hA⟩ := split_first_true E hne
+  have h0 := hw A.length (by simp)
+  have hdrop : AllFalse (e.drop 31) := by
+    intro b hb
+    cases b with
+    | false => rfl
+    | true =>
+      exfalso
+      obtain ⟨k, hk⟩ := List.getElem?_of_mem hb
+      have hk' : e[31 + k]? = some true := by simpa [List.getElem?_drop] using hk
+      have := hw (A.length + (1 + (31 + k))) (by
+        rw [List.getElem?_append_right (by omega)]
+        have : A.length + (1 + (31 + k)) - A.length = (31 + k) + 1 := by omega
+        rw [this]
+        simpa using hk')
+      omega
+  have hsplit : A ++ true :: e = A ++ ((true :: e.take 31) ++ e.drop 31) := by
+    simp [List.take_append_drop]
+  rw [hsplit, run_append, run_append, run0_allFalse A hA, run_allFalse _ _ hdrop]
+  intro h
+  exact run0_ne_zero (e.take 31) (by simp; omega) (iterL_inj0 _ _ h)
+
+theorem xorBits_length : ∀ (a e : List Bool), e.length = a.length → (xorBits a e).length = a.length
+  | [], [], _ => rfl
+  | a :: as, b :: bs, h => by
+    simp only [xorBits, List.length_cons]
+    rw [xorBits_length as bs (by simpa using h)]
+  | [], _ :: _, h => by simp at h
+  | _ :: _, [], h => by simp at h
+
+/-- C13 core, general form: xor-ing into the message any non-zero error pattern whose set bits all
+    lie in one window of 32 consecutive bit positions changes the CRC. -/
+theorem crcBits_window (a E : List Bool) (hlen : E.length = a.length) (lo : Nat)
+    (hne : ∃ k : Nat, E[k]? = some true) (hw : ∀ k : Nat, E[k]? = some true → lo ≤ k ∧ k < lo + 32) :
+    crcBits (xorBits a E) ≠ crcBits a := by
+  apply not_inj
+  intro h
+  rw [run_xor a E _ hlen] at h
+  exact run0_window E lo hne hw (xor_eq_self_iff _ _ h)
+
+
+/-! ### bytes: xor masks, bit addressing -/
+
+def xorBytes : List UInt8 → List UInt8 → List UInt8
+  | a :: as, b :: bs => (a ^^^ b) :: xorBytes as bs
+  | as, [] => as
+  | [], _ => []
+
+/-- bit `k` of a byte string in CRC transmission order: byte `k / 8`, bit `k % 8` counted from the
+    least significant bit (the reflected CRC shifts the low bit of every byte in first). -/
+def bitAt (bs : List UInt8) (k : Nat) : Bool := (bs.getD (k / 8) 0).toBitVec.getLsbD (k % 8)
+
+theorem byteBits_eq (b : UInt8) : byteBits b =
+    [b.toBitVec.getLsbD 0, b.toBitVec.getLsbD 1, b.toBitVec.getLsbD 2, b.toBitVec.getLsbD 3,
+     b.toBitVec.getLsbD 4, b.toBitVec.getLsbD 5, b.toBitVec.getLsbD 6, b.toBitVec.getLsbD 7] := by
+  simp [byteBits, List.range, List.range.loop]
+
+theorem byteBits_xor (a b : UInt8) : byteBits (a ^^^ b) = xorBits (byteBits a) (byteBits b) := by
+  simp [byteBits_eq, xorBits]
+
+theorem xorBits_append : ∀ (a1 e1 a2 e2 : List Bool), e1.length = a1.length →
+    xorBits (a1 ++ a2) (e1 ++ e2) = xorBits a1 e1 ++ xorBits a2 e2
+  | [], [], a2, e2, _ => by simp [xorBits]
+  | a :: as, b :: bs, a2, e2, h => by
+    simp only [List.cons_append, xorBits]
+    rw [xorBits_append as bs a2 e2 (by simpa using h)]
+  | [], _ :: _, _, _, h => by simp at h
+  | _ :: _, [], _, _, h => by simp at h
+
+theorem bytesToBits_length : ∀ (bs : List UInt8), (bytesToBits bs).length = 8 * bs.length
+  | [] => rfl
+  | b :: bs => by simp [bytesToBits, byteBits_length, bytesToBits_length bs]; omega
+
+theorem bytesToBits_append : ∀ (a b : List UInt8), bytesToBits (a ++ b) = bytesToBits a ++ bytesToBits b
+  | [], b => rfl
+  | x :: a, b => by simp [bytesToBits, bytesToBits_append a b]
+
+theorem bytesToBits_xor : ∀ (d e : List UInt8), e.length = d.length →
+    bytesToBits (xorBytes d e) = xorBits (bytesToBits d) (bytesToBits e)
+  | [], [], _ => by simp [xorBytes, bytesToBits, xorBits]
+  | a :: as, b :: bs, h => by
+    simp only [xorBytes, bytesToBits]
+    rw [xorBits_append _ _ _ _ (by simp [byteBits_length]), byteBits_xor,
+      bytesToBits_xor as bs (by simpa using h)]
+  | [], _ :: _, h => by simp at h
+  | _ :: _, [], h => by simp at h
+
+theorem byteBits_getElem? (b : UInt8) (k : Nat) (hk : k < 8) :
+    (byteBits b)[k]? = some (b.toBitVec.getLsbD k) := by
+  simp [byteBits, hk]
+
+theorem bytesToBits_getElem? : ∀ (bs : List UInt8) (k : Nat), k < 8 * bs.length →
+    (bytesToBits bs)[k]? = some (bitAt bs k)
+  | [], k, h => by simp at h
+  | b :: bs, k, h => by
+    simp only [bytesToBits]
+    by_cases hk : k < 8
+    · rw [List.getElem?_append_left (by simp [byteBits_length, hk]), byteBits_getElem? b k hk]
+      have h1 : k / 8 = 0 := by omega
+      have h2 : k % 8 = k := by omega
+      simp [bitAt, h1, h2]
+    · rw [List.getElem?_append_right (by simp [byteBits_length]; omega), byteBits_length,
+        bytesToBits_getElem? bs (k - 8) (by simp at h; omega)]
+      have h1 : k / 8 = (k - 8) / 8 + 1 := by omega
+      have h2 : k % 8 = (k - 8) % 8 := by omega
+      simp [bitAt, h1, h2]
+
+/-- **`crc_burst` on bytes.** For any data and any xor mask of the same length that is non-zero and
+    whose set bits all lie within 32 consecutive bit positions (anywhere, not byte aligned), the
+    CRC-32 of the altered data differs from the CRC-32 of the data. -/
+theorem crc32_burst (data err : List UInt8) (hlen : err.length = data.length) (lo : Nat)
+    (hne : ∃ k, k < 8 * err.length ∧ bitAt err k = true)
+    (hw : ∀ k, k < 8 * err.length → bitAt err k = true → lo ≤ k ∧ k < lo + 32) :
+    crc32 (xorBytes data err) ≠ crc32 data := by
+  rw [crc32_eq_crcBits, crc32_eq_crcBits, bytesToBits_xor data err hlen]
+  apply crcBits_window _ _ (by simp [bytesToBits_length, hlen]) lo
+  · obtain ⟨k, hk, hb⟩ := hne
+    exact ⟨k, by rw [bytesToBits_getElem? err k hk, hb]⟩
+  · intro k hk
+    have hlt : k < 8 * err.length := by
+      have := (List.getElem?_eq_some_iff.mp hk).1
+      simpa [bytesToBits_length] using this
+    rw [bytesToBits_getElem? err k hlt] at hk
+    exact hw k hlt (by simpa using hk)
+
+
+/-! ### replacing up to four consecutive bytes -/
+
+theorem xorBits_allFalse : ∀ (a e : List Bool), AllFalse e → xorBits a e = a
+  | [], [], _ => rfl
+  | [], _ :: _, _ => rfl
+  | _ :: _, [], _ => rfl
+  | a :: as, b :: bs, h => by
+    have hb : b = false := h b (by simp)
+    subst hb
+    simp only [xorBits]
+    rw [xorBits_allFalse as bs (fun x hx => h x (by simp [hx]))]
+    simp
+
+theorem xorBits_cancel : ∀ (m m' : List Bool), m'.length = m.length → xorBits m (xorBits m m') = m'
+  | [], [], _ => rfl
+  | a :: as, b :: bs, h => by
+    simp only [xorBits]
+    rw [xorBits_cancel as bs (by simpa using h)]
+    cases a <;> cases b <;> rfl
+  | [], _ :: _, h => by simp at h
+  | _ :: _, [], h => by simp at h
+
+theorem allFalse_replicate (n : Nat) : AllFalse (List.replicate n false) := by
+  intro b hb
+  exact (List.mem_replicate.mp hb).2
+
+theorem not_allFalse_exists : ∀ (l : List Bool), ¬ AllFalse l → ∃ k : Nat, l[k]? = some true
+  | [], h => (h (by intro b hb; simp at hb)).elim
+  | true :: _, _ => ⟨0, rfl⟩
+  | false :: l, h => by
+    have : ¬ AllFalse l := by
+      intro hl
+      apply h
+      intro b hb
+      simp at hb
+      cases hb with
+      | inl h => exact h
+      | inr h => exact hl b h
+    obtain ⟨k, hk⟩ := not_allFalse_exists l this
+    exact ⟨k + 1, by simpa using hk⟩
+
+theorem byteBits_inj (a b : UInt8) (h : byteBits a = byteBits b) : a = b := by
+  rw [byteBits_eq, byteBits_eq] at h
+  simp only [List.cons.injEq, and_true] at h
+  apply UInt8.toBitVec_inj.mp
+  apply BitVec.eq_of_getLsbD_eq
+  intro i hi
+  have : i = 0 ∨ i = 1 ∨ i = 2 ∨ i = 3 ∨ i = 4 ∨ i = 5 ∨ i = 6 ∨ i = 7 := by omega
+  obtain ⟨h0, h1, h2, h3, h4, h5, h6, h7⟩ := h
+  rcases this with h' | h' | h' | h' | h' | h' | h' | h' <;> subst h' <;>
+    simp_all
+
+theorem bytesToBits_inj : ∀ (a b : List UInt8), a.length = b.length → bytesToBits a = bytesToBits b → a = b
+  | [], [], _, _ => rfl
+  | x :: a, y :: b, hl, h => by
+    simp only [bytesToBits] at h
+    have h' := List.append_inj h (by simp [byteBits_length])
+    rw [byteBits_inj x y h'.1, bytesToBits_inj a b (by simpa using hl) h'.2]
+  | [], _ :: _, h, _ => by simp at h
+  | _ :: _, [], h, _ => by simp at h
+
+theorem sandwich_window (A D C : List Bool) (hA : AllFalse A) (hC : AllFalse C) (k : Nat)
+    (h : (A ++ D ++ C)[k]? = some true) : A.length ≤ k ∧ k < A.length + D.length := by
+  by_cases h1 : k < A.length
+  · rw [List.append_assoc, List.getElem?_append_left h1] at h
+    have := hA true (List.mem_of_getElem? h)
+    simp at this
+  · by_cases h2 : k < A.length + D.length
+    · omega
+    · rw [List.getElem?_append_right (by simp; omega)] at h
+      have := hC true (List.mem_of_getElem? h)
+      simp at this
+
+/-- Any alteration confined to at most four consecutive bytes (of any data, at any byte position)
+    changes the CRC-32. -/
+theorem crc32_window (pre mid mid' post : List UInt8) (hl : mid'.length = mid.length)
+    (h4 : mid.length ≤ 4) (hne : mid' ≠ mid) :
+    crc32 (pre ++ mid' ++ post) ≠ crc32 (pre ++ mid ++ post) := by
+  rw [crc32_eq_crcBits, crc32_eq_crcBits]
+  simp only [bytesToBits_append]
+  let D := xorBits (bytesToBits mid) (bytesToBits mid')
+  let A := List.replicate (bytesToBits pre).length false
+  let C := List.replicate (bytesToBits post).length false
+  have hlb : (bytesToBits mid').length = (bytesToBits mid).length := by simp [bytesToBits_length, hl]
+  have hDlen : D.length = (bytesToBits mid).length := xorBits_length _ _ hlb
+  have hE : bytesToBits pre ++ bytesToBits mid' ++ bytesToBits post =
+      xorBits (bytesToBits pre ++ bytesToBits mid ++ bytesToBits post) (A ++ D ++ C) := by
+    rw [xorBits_append _ _ _ _ (by simp [A, hDlen]), xorBits_append _ _ _ _ (by simp [A]),
+      xorBits_allFalse _ A (allFalse_replicate _), xorBits_allFalse _ C (allFalse_replicate _),
+      xorBits_cancel _ _ hlb]
+  rw [hE]
+  have hDne : ¬ AllFalse D := by
+    intro hD
+    apply hne
+    apply bytesToBits_inj _ _ hl
+    have := xorBits_cancel _ _ hlb
+    rw [xorBits_allFalse _ _ hD] at this
+    exact this.symm
+  apply crcBits_window _ _ (by simp [A, C, hDlen]) A.length
+  · obtain ⟨k, hk⟩ := not_allFalse_exists D hDne
+    refine ⟨A.length + k, ?_⟩
+    rw [List.append_assoc, List.getElem?_append_right (by omega)]
+    have hk' : k < D.length := (List.getElem?_eq_some_iff.mp hk).1
+    rw [List.getElem?_append_left (by omega)]
+    simpa using hk
+  · intro k hk
+    have := sandwich_window A D C (allFalse_replicate _) (allFalse_replicate _) k hk
+    have h8 : D.length ≤ 32 := by rw [hDlen, bytesToBits_length]; omega
+    omega
+
+/-- A single flipped bit (any byte, any bit) changes the CRC-32. -/
+theorem crc32_bit_flip (pre post : List UInt8) (b : UInt8) (j : Nat) (hj : j < 8) :
+    crc32 (pre ++ [b ^^^ (1 <<< UInt8.ofNat j)] ++ post) ≠ crc32 (pre ++ [b] ++ post) := by
+  apply crc32_window pre [b] [b ^^^ (1 <<< UInt8.ofNat j)] post rfl (by simp)
+  intro h
+  simp only [List.cons.injEq, and_true] at h
+  have h1 : (b ^^^ (1 <<< UInt8.ofNat j)) ^^^ b = b ^^^ b := by rw [h]
+  have h2 : (1 : UInt8) <<< UInt8.ofNat j = 0 := by
+    have : (b ^^^ (1 <<< UInt8.ofNat j)) ^^^ b = 1 <<< UInt8.ofNat j := by
+      rw [UInt8.xor_comm b, UInt8.xor_assoc, UInt8.xor_self, UInt8.xor_zero]
+    rw [this, UInt8.xor_self] at h1
+    exact h1
+  have : j = 0 ∨ j = 1 ∨ j = 2 ∨ j = 3 ∨ j = 4 ∨ j = 5 ∨ j = 6 ∨ j = 7 := by omega
+  rcases this with h' | h' | h' | h' | h' | h' | h' | h' <;> subst h' <;> revert h2 <;> decide
+
+
+/-- the CRC-32/IEEE check value ("123456789") -/
+example : crc32 [0x31, 0x32, 0x33, 0x34, 0x35, 0x36, 0x37, 0x38, 0x39] = 0xCBF43926#32 := by decide +kernel
 
 end PqModel.Crc
